@@ -62,7 +62,7 @@ func evalC14(c c14Case) (f *Failure, nontrivial bool) {
 		var pingsAtClient []time.Duration
 		net := memnet.New()
 		if c.LatencyMs > 0 {
-			net.OnDial = func(l *memnet.Link) error { l.SetLatency(time.Duration(c.LatencyMs) * time.Millisecond); return nil }
+			net.SetOnDial(func(l *memnet.Link) error { l.SetLatency(time.Duration(c.LatencyMs) * time.Millisecond); return nil })
 		}
 		var srv eio.ServerSocket
 		server := eio.NewServer(func(s eio.ServerSocket) *eio.Callbacks {
